@@ -419,6 +419,14 @@ func (b *bitstream) ReadAnnotations(symbolTable SymbolTable) ([]SymbolToken, err
 			b.pos - lengthOfAnnotFieldLength}
 	}
 
+	// These are unsigned: compare before subtracting, or an annotation length that
+	// exceeds the wrapper wraps around to a huge remainder.
+	if annotFieldLength >= b.len-lengthOfAnnotFieldLength {
+		// The size of the annotations is larger than the remaining free space inside the
+		// annotation container.
+		return nil, &SyntaxError{"malformed annotation", b.pos - lengthOfAnnotFieldLength}
+	}
+
 	remainingAnnotationLength := b.len - lengthOfAnnotFieldLength - annotFieldLength
 
 	if remainingAnnotationLength <= 0 {
